@@ -547,7 +547,7 @@ class _Cells:
             a = _u(node.value)
             if a in self.lists:
                 return _ln(a)
-            if a in (V, f"{V}.cols()"):
+            if a in (V, f"{V}.cols()") or a in getattr(self, "snaps", ()):
                 return f"(itemsV {_ln(V)})"
         raise TranslateError("_assign_cells: written value " + _u(node)[:60])
 
@@ -591,6 +591,19 @@ class _Cells:
             n = s.targets[0].id
             self.lists.add(n)
             return (pad + f"match O.list_of {V} with\n" + pad + "| .error e => .error e\n" + pad + f"| .ok {_ln(n)} =>\n" + self.body(rest, ind))
+        # a snapshot of the right-hand side taken before the first column is written (`sources = [col.copy() for col in value.cols()]`,
+        # `sources = [item.copy() if isinstance(item, Vector) else item for item in value]`): on the value level — the model has no
+        # object identity — the snapshot IS the sequence of items; why it is taken (the items may be live columns of this table) is
+        # aliasing, owned by C01/C15
+        if isinstance(s, ast.Assign) and len(s.targets) == 1 and isinstance(s.targets[0], ast.Name) and isinstance(s.value, ast.ListComp) \
+                and len(s.value.generators) == 1 and not s.value.generators[0].ifs and isinstance(s.value.generators[0].target, ast.Name):
+            g = s.value.generators[0]
+            x = g.target.id
+            if _u(g.iter) in (self.value, f"{self.value}.cols()") and _u(s.value.elt) in (f"{x}.copy()", f"{x}.copy() if isinstance({x}, Vector) else {x}"):
+                if not hasattr(self, "snaps"):
+                    self.snaps = set()
+                self.snaps.add(s.targets[0].id)
+                return self.body(rest, ind)
         # the column loops and the single write: each must be followed by `return`
         if isinstance(s, (ast.For, ast.Assign)) and not (rest and isinstance(rest[0], ast.Return) and rest[0].value is None):
             raise TranslateError("_assign_cells: a column write that is not followed by `return`: " + _u(s)[:50])
